@@ -67,6 +67,7 @@ SPEC = Spec(
          "tx announced or delivered by every node at one instant, unsolicited deliveries, polls with max in {-1,0,1,2..4,100}; "
          "several txids eligible for one node followed by polls with a small max; plus concurrent stress scripts (2-8 goroutines issuing random calls) "
          "and lock-step storms (all goroutines announce / deliver the same fresh txid at the same instant), in the thorough tier also under the Go race detector; "
+         "corpus regression tx-stale-stamp (a poll slower than the time-out, repository fix 9c84f1c); "
          "non-trivial = >= 6 ops with an announcement and a delivery or poll, or a stress/storm op; "
          "distinct = distinct op text",
     assumptions=[
@@ -76,9 +77,6 @@ SPEC = Spec(
         "Clean (re-delivery after cleaning is processed again, by design) and interrupt/shutdown (sendTx drops) are excluded from exactly-once; TxProcessor and TxSaver are set before Run and return no error in the harness",
         "the id<->txid table of the harness is injective (distinct OP_RETURN payloads; SHA-256d collision-freeness)",
     ],
-    partial_note="C06_conc_single_outstanding_partial: under interleavings the spacing of two grants is proved from the stored stamp "
-                 "(earlier.stamp + timeout <= later.time); the real-time version is false for the code (GetTxRequests stamps the clock value "
-                 "read at its start): model witness C06_conc_stale_stamp_anomaly, reproduced on the real code by corpus/C06/finding-stale-stamp.ops",
     modelled_funcs=["TxManager.AddTxID", "TxManager.AddTx", "TxManager.sendTx", "TxManager.GetTxRequests", "TxManager.Run",
                     "TxManager.Clean", "TxData.Latest", "appendID", "removeID", "contains"],
 )
@@ -89,8 +87,8 @@ META = dict(
          "(at most once always, exactly once at quiescence without interrupt), SaveTx calls = relevant ProcessTx calls, two grants of one txid are >= time-out apart, no grant after delivery, "
          "a denied announcer stays recorded until it is granted and GetTxRequests returns exactly the eligible txids when it returns fewer than max. "
          "The model is tied to tx_manager.go by differential runs in three clock regimes and by concurrent stress runs checked by the monitor.",
-    note=COMMON_NOTE + "Excluded and stated in Props/C06.lean: Clean and interrupt. GetTxRequests stamps LastRequested with the clock value read when the call STARTED: "
-         "in the interleaving semantics the spacing theorem is therefore stated for the stamp (real-time spacing is time-out minus the duration of the earlier poll); "
-         "for calls that complete within one clock tick (all sequential histories) it is the full time-out. The deviation is reproduced on the real code by "
-         "`bin/check C06 --replay corpus/C06/finding-stale-stamp.ops` (not run automatically). `max` is only tested per bucket (modelled as is).",
+    note=COMMON_NOTE + "Excluded and stated in Props/C06.lean: Clean and interrupt. GetTxRequests used to stamp LastRequested with the clock value read when the call "
+         "STARTED (two requests within one time-out when a poll outlasted it); repaired in /repo 9c84f1c, the model stamps the clock of the entry section, "
+         "C06_conc_single_outstanding is the full real-time statement, C06_old_formula_stale_stamp_anomaly documents the old formula and corpus/C06/tx-stale-stamp.ops "
+         "is the regression on the real code. `max` is only tested per bucket (modelled as is).",
 )
